@@ -183,8 +183,8 @@ def oracle(case, lines):
             l = nxt()
             if l != f"P empty={0 if out else 1}":
                 errs.append(f"{op}: aws_ring_buffer_is_empty() reports `{l}` with {len(out)} buffer(s) outstanding")
-        if t[0] == "init":
-            n = int(t[1]); out = []
+        if t[0] in ("init", "initbig"):
+            n = psize(t[1]); out = []
             valid_line()
             continue
         if t[0] == "rel":
@@ -272,11 +272,44 @@ def _debug_cases(rng):
     return cases
 
 
+def big_cases():
+    """rings of 4 GiB and more (storage reserved, never touched): full-capacity grants, a request of capacity mod 2^32 + 1,
+    up-to requests asking for everything, release and repeat; plus partial fills around the 2^32 boundary"""
+    cases = []
+    G = 2 ** 32
+    for cap in (G, G + 1, G + 4096, 3 * 2 ** 31, 2 * G, 2 * G + 7):
+        low = cap % G
+        ops = [f"initbig {cap}", f"acq 0 0 {cap}", "rel", f"acq 0 0 {low + 1}", "rel", f"upto 0 0 1 {cap}", "rel",
+               f"upto 0 0 {cap} {cap}", "rel", f"acq 0 0 {cap + 1}", f"upto 0 0 {G} MAX", "rel",
+               f"acq 0 0 {G - 1}", f"acq 0 0 {cap - (G - 1)}", "rel", f"upto 0 0 1 {G}", "rel", "rel", f"acq 0 0 {cap}"]
+        cases.append(Case(ops, {"n": cap, "big": True}))
+    return cases
+
+
+def big_stage(ctx):
+    """correspondence at sizes beyond 2^32 (the model is unbounded; this ties the implementation's size arithmetic)"""
+    try:
+        exe = cbuild.build_harness(**HARNESS)
+    except cbuild.BuildError as e:
+        ctx.machinery_broken("build: " + str(e)[:2000])
+        return
+    probe = Case([f"initbig {2 ** 33 + 7}"], {"big": True})
+    c_out, _, crashes = core.run_both(ctx, [probe], exe, None, jobs=1, timeout=60)
+    if 0 in crashes or "P big-unavailable" in c_out.get(0, []) or not c_out.get(0):
+        ctx.notes.append("big-ring stage skipped: the harness could not reserve 8 GiB of address space (mmap refused)")
+        ctx.cov["big_ring_cases"] = 0
+        return
+    cases = big_cases()
+    ctx.cov["big_ring_cases"] = len(cases)
+    core.correspondence_stage(ctx, cases, exe)
+
+
 def extra_stages(ctx):
     """second flavour: ring_buffer.c (and the library) compiled with -DDEBUG_BUILD, so AWS_PRECONDITION / AWS_POSTCONDITION
     (aws_ring_buffer_is_valid before and after every call) abort on a state the library itself calls invalid"""
     if ctx.replay:
         return
+    big_stage(ctx)
     try:
         exe = cbuild.build_harness(**dict(HARNESS, flavour="debug"))
     except cbuild.BuildError as e:
